@@ -62,7 +62,7 @@ def drain(prop: str | None = None) -> list[dict]:
 def _ensure(cond):
     """icontract.ensure with a named condition and explicit error; fallback: same semantics by hand."""
     if HAVE_ICONTRACT:
-        return icontract.ensure(cond, error=ContractBreach)
+        return icontract.ensure(cond, error=ContractBreach, enabled=True)  # enabled: icontract switches itself off under `python -O` otherwise
 
     def deco(fn):
         import inspect
